@@ -1,0 +1,21 @@
+"""Verification hook (inert unless the environment variable GTIRB_VERIF_TRACE
+is set): records which branch LazyIntervalTree.get() takes, so that a
+conformance harness can report coverage of the deferred-update paths."""
+import os
+import typing
+
+ENABLED = bool(os.environ.get("GTIRB_VERIF_TRACE"))
+events: typing.List[typing.Dict[str, object]] = []
+_seq = 0
+
+
+def emit(kind: str, **fields: object) -> None:
+    global _seq
+    if not ENABLED:
+        return
+    _seq += 1
+    fields["seq"] = _seq
+    fields["kind"] = kind
+    events.append(fields)
+    if len(events) > 100000:
+        del events[:50000]
